@@ -36,6 +36,13 @@ func (x *xtr) co(n ast.Node, v xval, ty *xty) string {
 				return fmt.Sprintf("0x%x#8", v.c)
 			}
 		}
+	case kMap:
+		if ty.k == kAny && v.ty.key.k == kStr && v.ty.elem.k == kAny {
+			return "Go.Any.map " + paren(v.s) // a map[string]any stored in an interface value
+		}
+		if sameTy(v.ty, ty) {
+			return v.s
+		}
 	default:
 		if sameTy(v.ty, ty) {
 			return v.s
@@ -180,7 +187,7 @@ func (x *xtr) composite(t *ast.CompositeLit) xval {
 			}
 			parts = append(parts, fmt.Sprintf("%s := %s", ident(f.name), v))
 		}
-		return xval{s: "({ " + strings.Join(parts, ", ") + " } : " + st.name + ")", ty: ty}
+		return xval{s: "({ " + strings.Join(parts, ", ") + " } : " + ty.lean() + ")", ty: ty}
 	case kList:
 		var parts []string
 		for _, el := range t.Elts {
@@ -360,7 +367,20 @@ func (x *xtr) call(c *ast.CallExpr) xval {
 			return xval{s: x.applyFn(c, ident(id.Name), ft), ty: ft.results[0]}
 		}
 	}
+	if ft, ok := x.known[name]; ok {
+		if len(ft.results) != 1 {
+			x.bad(c, "call of %s with %d results inside an expression", name, len(ft.results))
+		}
+		return xval{s: x.applyFn(c, name, ft), ty: ft.results[0]}
+	}
 	switch name {
+	case "strings.Split":
+		need(2)
+		sep, ok := c.Args[1].(*ast.BasicLit)
+		if !ok || sep.Kind != token.STRING || sep.Value == `""` {
+			x.bad(c, "strings.Split with a separator that is not a non-empty literal")
+		}
+		return xval{s: fmt.Sprintf("Go.strSplit %s %s", paren(x.co(c.Args[0], x.expr(c.Args[0]), tStr)), x.expr(sep).s), ty: listOf(tStr)}
 	case "len":
 		need(1)
 		a := x.expr(c.Args[0])
@@ -484,18 +504,19 @@ func (x *xtr) funcLit(t *ast.FuncLit) xval {
 	if len(out) != 0 {
 		x.bad(t, "function literal assigns captured variable(s) %v", sortedNames(out))
 	}
-	if needsExit(t.Body.List) {
-		x.bad(t, "loop with an exit inside a function literal")
+	if scanCtl(t.Body.List).fuelLoop {
+		x.bad(t, "`for` loop inside a function literal")
 	}
 	x.results = ft.results
-	x.ctx = xctx{ret: func(v string) string { return v }}
-	savedExtras := x.extras
+	x.ctx = xctx{mode: mPlain}
+	savedExtras, savedRho := x.extras, x.rho
 	x.extras = nil
+	x.rho = resLean(ft.results)
 	body := x.block(t.Body.List, func() string {
 		x.bad(t, "control reaches the end of a function literal with results")
 		return ""
 	})
-	x.extras = savedExtras
+	x.extras, x.rho = savedExtras, savedRho
 	x.env, x.ctx, x.results = saved, savedCtx, savedRes
 	hd := "fun " + strings.Join(names, " ") + " =>"
 	if len(names) == 0 {
